@@ -61,6 +61,7 @@ def run(facts, rep, tier):
                      ("R14.2", "same groups in the same order in header and rows"), ("R14.3", "each column shows its own field"),
                      ("R14.4", "alignment: numbers right, text left; blanks are spaces"), ("R14.5", "header, separator, rows, separator")]:
         rep.rule(rid, txt, "P")
+    rep.rule("R14.8", "a column is blank exactly when its parameter is unknown (known values of either sign are shown)", "P")
     rep.rule("R14.7", "each optional group is switched on exactly by its -i letter, however the letters are spread over -i occurrences", "P")
     rep.rule("R14.6", "position-exact: under every header column the row shows that column's field (or blanks), for all 32 flag sets", "P")
     rows = [b for b in facts.bodies.values() if b.name.endswith("::simple_display") and b.kind == "assoc"]
@@ -160,6 +161,7 @@ def run(facts, rep, tier):
     base = None
     # ---- R14.6: position-exact rendering by abstract interpretation (handles helpers, loops, dynamic widths)
     _layout_check(facts, rep, rb, hb, hcfg, hflag, harr)
+    _blank_check(facts, rep, rb, hb, hcfg, hflag, harr)
     _letters_check(facts, rep)
     e3_ok = not cfg.loops() and all(site_width(x) is not None for x in wblocks.values()) and \
         not any((callee_name(t) or "") in facts.bodies and any(tt["callee"].get("name") == "write_fmt" for _, tt in facts.bodies[callee_name(t)].calls())
@@ -613,3 +615,78 @@ def _letters_check(facts, rep):
                             "DisplayFlags::%s() as built by %s: %s" % (name, callee_name(t), why), span_loc(t.get("span"))))
     rep.instances("R14.7", n, floor=5, what="group accessors compared as boolean functions of 18 letter-occurrence atoms")
     rep.sample({"rule": "R14.7", "construction": show(("call", callee_name(t), tuple(expr(du, a) for a in t["args"])))[:200], "occurrences": NOCC})
+
+
+def _blank_check(facts, rep, rb, hb, hcfg, hflag, harr):
+    """R14.8: render (abstractly) a row whose every parameter is KNOWN - all Option fields Some(symbolic value), latitude and
+    longitude in each sign class - and a row whose every parameter is UNKNOWN (None / the 0.0,0.0 sentinel): in the first
+    no column may come out blank, in the second every optional column must be blank."""
+    from ..absint import k3 as K3
+    from ..absint.ctx import new_interp, ref_to
+    from ..absint.domain import EnumV, FloatV, IntV, LayoutV, RefV, StructV
+    from ..absint.interp import Diverge, State
+    flags_adt = [n for n in facts.adts if n.endswith("::DisplayFlags")][0]
+    plane_adt = [n for n in facts.adts if n.endswith("::Plane")][0]
+    optional = {f["name"] for f in facts.adts[plane_adt]["variants"][0]["fields"] if f["ty"]["s"].startswith("std::option::Option<")} | {"lat", "lon"}
+    fs = {name: True for name in FLAGS}
+    hcols = _walk_header(hb, hcfg, hflag, harr, fs)
+    flags = StructV(flags_adt, {"bits": IntV.const("u8", 31)})
+    base = K3.row_with_hulls(facts, {})
+    cases = []
+    for la, lo in (((1e-7, 90.0), (1e-7, 180.0)), ((1e-7, 90.0), (-180.0, -1e-7)), ((-90.0, -1e-7), (1e-7, 180.0)), ((-90.0, -1e-7), (-180.0, -1e-7))):
+        f = {}
+        for k, v in base.fields.items():
+            if isinstance(v, EnumV) and v.adt.endswith("Option") and v.may("Some"):
+                v = EnumV(v.adt, {"Some": v.variants["Some"]})
+            f[k] = v
+        f["lat"] = FloatV(la[0], la[1], frozenset([("pre", "lat")]), ("pre", "lat"))
+        f["lon"] = FloatV(lo[0], lo[1], frozenset([("pre", "lon")]), ("pre", "lon"))
+        cases.append(("known, lat %s lon %s" % ("N" if la[0] > 0 else "S", "E" if lo[0] > 0 else "W"), True, StructV(base.adt, f)))
+    f = {}
+    for k, v in base.fields.items():
+        if isinstance(v, EnumV) and v.adt.endswith("Option"):
+            v = EnumV.none()
+        f[k] = v
+    f["lat"] = FloatV(0.0, 0.0)
+    f["lon"] = FloatV(0.0, 0.0)
+    cases.append(("unknown", False, StructV(base.adt, f)))
+    n = 0
+    for label, known, row in cases:
+        I = new_interp(facts)
+        I.side["layout_mode"] = True
+        I.ctx_label = "blank-check %s" % label
+        I.infeasible_edges = _fmt_err_edges(facts)
+        st = State()
+        sink = I.new_cell(st, LayoutV())
+        try:
+            st, res = I.run_body(st, rb, [ref_to(I, st, row), RefV(sink, (), True), ref_to(I, st, flags)])
+        except Diverge:
+            continue
+        lay = I.cell_get(st, sink)
+        if not isinstance(lay, LayoutV):
+            continue
+        pos = 0
+        for name, w in hcols + [("LC", 1)]:
+            want = COLUMN_FIELDS.get(name, [])
+            width = w if name != "LC" else 2
+            span = lay.cells[pos:pos + width]
+            pos += width + (1 if name != "LC" else 0)
+            if not want or want[0] not in optional:
+                continue
+            n += 1
+            shows = any(src[0] == "field" and src[1] in want for c in span for src in c)
+            only_blank = [i for i, c in enumerate(span) if c and all(src in (("blank",), ("lit", " ")) for src in c)]
+            if known:
+                ok = shows and len(only_blank) < len(span)
+                rep.oblige(ok, ("filled", label, name))
+                if not ok:
+                    rep.add(Finding("R14.8", "column %s blank although the value is known" % name,
+                                    "row with every parameter %s: column %s (field `%s`) is printed blank - a known value is not shown"
+                                    % (label, name, want[0]), rb.loc()))
+            else:
+                ok = not shows
+                rep.oblige(ok, ("blank", name))
+                if not ok:
+                    rep.add(Finding("R14.8", "column %s filled although the value is unknown" % name,
+                                    "row with every parameter unknown: column %s shows `%s` instead of blanks" % (name, want[0]), rb.loc()))
+    rep.instances("R14.8", n, floor=100, what="(row class, optional column) pairs")
